@@ -92,6 +92,19 @@ def check_site(ctx, algo, eff):
     ctx.ob("R06-SITE", handed, c.file, fc.qual, norm_src(call),
            "expands the last cell of self.path - the cell pull handed out (pairing: C04 R04-PAIR)" if handed else
            "the expanded cell is not the handed-out cell self.path[-1]: %s" % why, call.lineno)
+    # the wrapper reached from the site (expand) grows the tree unconditionally: the decision is taken at the site, where the
+    # published predicate is checked - a further condition inside the wrapper would suppress a due expansion
+    for wn in sorted(wrappers):
+        wf = model.lookup(algo, wn)[1]
+        if wf is None:
+            continue
+        gw = C.CFG(wf)
+        mcs = {gw.node_of(x) for x in calls_in(wf, "make_children")}
+        okw = bool(mcs) and gw.must_pass(gw.entry, mcs, {gw.exit}) and not any(gw.paths_avoiding(a, b) for a in mcs for b in mcs)
+        ctx.ob("R06-SITE", okw, c.file, "%s.%s" % (algo, wn), "make_children inside %s" % wn,
+               "every call of %s adds the children (exactly one make_children on every path)" % wn if okw else
+               "%s does not always reach its make_children call (or has several): an expansion that is due by the published rule can be skipped"
+               % wn, wf.lineno)
     # pull / get_last_point never grow the tree
     acc = AC.Access(model, eff, algo)
     for m in ("pull", "get_last_point"):
@@ -224,6 +237,9 @@ def run(ctx):
             ctx.add_finding("R06-STAT", f.file, f.qual, f.construct, f.why, f.line)
     ctx.functions |= tmp.functions
     ctx.shortfalls += tmp.shortfalls
+    # a round adds one set of children under the pulled cell: the child list of a cell must hold exactly the cells created by splitting it (C03's one-step lemma: no aliasing between a child list and a layer, parent/child links consistent)
+    from . import _partition
+    _partition.feed(ctx, (), rename={"R03-ALIAS": "R06-TREE", "R03-LINK": "R06-TREE"})
     return dict(
         explanation=(
             "For T-HOO, HCT, VHCT: SITE - the code reachable from receive_reward contains exactly one expansion call, outside any loop, "
